@@ -66,6 +66,17 @@ from .sequence import Sequence
 
 from .localciderExceptions import WLException
 
+# Verification hook (off unless LOCALCIDER_VERIF=1): lets an external monitor
+# observe the per-step quantities of run_normal_WL, which are local variables.
+# With the guard off, or with no sink registered, nothing is evaluated or emitted.
+_VERIF_ON = os.environ.get("LOCALCIDER_VERIF") == "1"
+_verif_sink = None
+
+
+def _verif_emit(kind, **payload):
+    if _verif_sink is not None:
+        _verif_sink(kind, payload)
+
 
 class WangLandauMachine:
     """
@@ -582,6 +593,10 @@ class WangLandauMachine:
         startTime = t.time()
         reject = 0
 
+        if _VERIF_ON:
+            _verif_emit("wl_init", machine=self, oseq=oseq, kold=kold, idx_old=idx_old,
+                        bincts=bincts, g=g, H=H, f=f)
+
         # This main while loop runs until we reach convergence. Note that depending on how long your sequence is
         # this might run for a while...
         while(f > self.convergence):
@@ -643,6 +658,11 @@ class WangLandauMachine:
                 acceptProb = 0
                 skip = True
 
+            if _VERIF_ON:
+                _verif_emit("wl_proposal", nstep=nstep, oseq=oseq, nseq=nseq, kold=kold, knew=knew,
+                            idx_old=idx_old, idx_new=idx_new, acceptProb=acceptProb, skip=skip,
+                            f=f, g=g, H=H)
+
             # print(acceptProb)
             # if new sequence kappa is less visited than old sequence kappa,
             # visit it
@@ -688,6 +708,10 @@ class WangLandauMachine:
             if not skip:
                 g[idx_old] = g[idx_old] + np.log(f)
                 H[idx_old] = H[idx_old] + 1
+
+            if _VERIF_ON:
+                _verif_emit("wl_step", nstep=nstep, oseq=oseq, kold=kold, idx_old=idx_old,
+                            skip=skip, f=f, g=g, H=H)
 
             # increment the number of steps taken
             nstep = nstep + 1
